@@ -110,6 +110,17 @@ Theorem share_negative_after_release_fault_refuted :
 Proof. exact BorrowProtoProps.share_negative_after_release_fault_refuted. Qed.
 Print Assumptions share_negative_after_release_fault_refuted.
 
+(* "whatever is in use is not available to others" is FALSE when a nested borrower outlives the block of the share it
+   borrowed from (known finding D26): witness on the whole-program machine, which the implementation follows event for
+   event (corpus/C12/d26_share_outlived.json): the supply reads full and is claimed in full at time 1 while the nested
+   borrower stays inside its block until time 10 *)
+From Usim Require Refuted.
+Theorem share_outlived_by_nested_borrower_refuted :
+  exists s, In [1; 30; 0; 4]%Z (Scenario.run_scenario 6000 200000 s) /\ In [1; 1; 4]%Z (Scenario.run_scenario 6000 200000 s) /\
+            In [10; 1; 1]%Z (Scenario.run_scenario 6000 200000 s).
+Proof. exact Refuted.share_outlived_by_nested_borrower_refuted. Qed.
+Print Assumptions share_outlived_by_nested_borrower_refuted.
+
 (* ---- hypotheses are satisfiable / the model moves *)
 Example valid_init_ex : valid_init [4; 2].
 Proof. intros k. do 3 (destruct k; [vm_compute; discriminate|]). unfold get. rewrite nth_overflow; simpl; lia. Qed.
